@@ -306,6 +306,12 @@ def appendEntryNode (f : Forest) (k : MapKind) (parent child : Nat) : Forest × 
     if !k.matches v then (f, .err .invalidOperation, child) else
     f.mapInsertNode k parent child
 
+/-- What `any_append` answers after `append(parent, child)?`: `child`, unless text consolidation
+    merged it away (`is_removed(child)`), then `last_child(parent).unwrap_or(child)`: the text node
+    that took the content in.  On an error (`?`) there is no node; the model keeps `child`. -/
+def anyAppendRet (f' : Forest) (r : Res) (parent child : Nat) : Nat :=
+  if r == .ok && f'.isRemoved child then (f'.lastChild parent).getD child else child
+
 /-- `any_append(parent, child)`; returns the node that now carries the content. -/
 def anyAppend (f : Forest) (parent child : Nat) : Forest × Res × Nat :=
   match f.value? child with
@@ -313,7 +319,7 @@ def anyAppend (f : Forest) (parent child : Nat) : Forest × Res × Nat :=
   | some (.attribute _ _) => f.appendEntryNode .attributes parent child
   | _ =>
     let (f', r) := f.append parent child
-    (f', r, child)
+    (f', r, anyAppendRet f' r parent child)
 
 /-! ### Setters -/
 
